@@ -18,10 +18,27 @@ from props import syntaxlib as L
 
 MANIFEST = dict(
     category="proof",
-    text="PLACEHOLDER",
+    text="proof (partial). Machine-checked (Coq): (1) C15_string_escape — for ALL strings, the echo's escape_numbat_string "
+         "followed by the parser's strip_and_escape is the identity (string literals and, since the fix, decorator strings); "
+         "(2) C15_roundtrip_partial / C15_roundtrip_exact — over a Gallina model of the expression echo (typed_ast.rs "
+         "PrettyPrint for Expression, pretty_print_binop, with_parens, with_parens_liberal, call_syntax, temperature sugar), "
+         "for EVERY printable typed expression of any depth the echoed tokens form a well-formed derivation tree of the "
+         "documented grammar, hence by the C10 theorem the parser model accepts them and returns the tree they denote, "
+         "which (without temperature sugar / digit separators) is exactly the tree the expression was elaborated from; "
+         "(3) C15_reassociation_refuted — the excluded class (a sum or product on the right loses its parentheses) is real. "
+         "NOT proved, checked on the implementation only (echo oracle: interpret, echo, re-interpret the echo in a clone of "
+         "the session, compare acceptance, type, value to 1e-12, echo of the echo, and a probe expression): statements "
+         "(let/fn/unit/dimension/struct with inferred types, where-clauses, decorators), struct/list literals, "
+         "interpolated strings, the number formatter, elaboration of the temperature sugar, and the fixed-point clause.",
     design_ref="DESIGN.md §6 C15; design/syntax.md",
-    note="PLACEHOLDER",
-    technique="PLACEHOLDER",
+    note="Trusted: Coq kernel + vm_compute; the hand port of the expression printer in Syntax/TypedPrinter.v (tied on every run by "
+         "comparing the tokens of the implementation's echo with the model's print of the intended typed tree) and of "
+         "escape/strip in Syntax/StrEsc.v (strip_and_escape is also exercised by the C10 correspondence); the C10 parser model; "
+         "the generator's knowledge of how numbat elaborates its fully parenthesised sources. Six echo defects were repaired by "
+         "fix: commits, three are open findings (multi-name dimension types, implicit dimension of a base unit, product "
+         "re-association not a fixed point).",
+    technique="Coq proof (echo = concrete syntax tree; well-formedness by induction; reuse of the C10 round-trip theorem) + "
+              "printer-model correspondence + metamorphic echo oracle on the real interpreter",
 )
 
 THEOREMS = ["C15_string_escape", "C15_roundtrip_partial", "C15_roundtrip_exact", "C15_reassociation_refuted"]
@@ -43,7 +60,7 @@ def model_items(chk, binary, quick):
     trees = []
     for c in json.load(open(os.path.join(common.VERIF, "corpus", "c15_trees.json"))):
         trees.append(eval(c["tree"], {"__builtins__": {}}, {"True": True, "False": False}))
-    for _ in range(1500 if quick else 30000):
+    for _ in range(1500 if quick else 10000):
         trees.append(g.any(chk.rng.choice([1, 2, 2, 3, 3, 4, 5])))
     cases = [dict(setup=echogen.SETUP, stmt=ttree.src(t), probe="") for t in trees]
     res = run_echo(binary, cases)
@@ -55,7 +72,9 @@ def model_items(chk, binary, quick):
         items.append(("show_pp " + ttree.coq(trees[n]), toks))
         idx.append({"source": cases[n]["stmt"], "echo": res[n]["echo"]})
     chk.cov["model_cases_generated"] = len(trees)
-    return items, idx
+    for c in cases:
+        c.update(kind="typed-tree", feat=[])
+    return items, idx, cases, res
 
 KNOWN = [f for f in common.load_known() if f.get("property") == "C15"]
 
@@ -135,7 +154,7 @@ def make_cases(chk, quick):
     for c in json.load(open(os.path.join(common.VERIF, "corpus", "c15.json"))):
         cases.append(dict(setup=c.get("setup", echogen.SETUP), stmt=c["stmt"], probe=c.get("probe", ""), kind="corpus",
                           feat=[]))
-    n = 3000 if quick else 60000
+    n = 3000 if quick else 25000
     for i in range(n):
         g = echogen.Gen(rng)
         stmt, probe, kind = g.statement(i)
@@ -187,7 +206,10 @@ def run(chk):
 
     # ---- printer model vs implementation (correspondence), see model_items()
     bad = {}
-    items, idx = model_items(chk, binary, quick)
+    items, idx, tcases, tres = model_items(chk, binary, quick)
+    # the typed-tree sources are statements too: they take part in the oracle
+    cases += tcases
+    res += tres
     if items:
         bad = common.coq_mismatches(MODEL_IMPORTS, items, "c15", shard_size=300)
 
@@ -246,7 +268,7 @@ def run(chk):
         if r["status"] == "OK" and len(r["echo"]) >= 12:
             shapes.add(common.shape_hash(re.sub(r"[0-9]+(\.[0-9]+)?", "#", re.sub(r"\b(unt|fun|v|Dim|St)\d+", r"\1", r["echo"]))))
     chk.cov.update({
-        "evaluations": len(cases) + len(items),
+        "evaluations": len(cases),
         "distinct_nontrivial": len(shapes),
         "rule": "corpus + seeded type-directed statements over the prelude (expressions of type Scalar/Length/Time/Velocity/"
                 "Temperature/Bool/String with all operator classes, conditionals, calls, callables, structs, lists, "
